@@ -123,3 +123,25 @@ func VerifH_C31_tooFew() {
 	sym.Assert(sym.Panics(func() { NewFunc(d) }) && sym.Panics(func() { NewFunc(nil) }), "fewer than two dots are rejected")
 	sym.Reach("too-few")
 }
+
+// verifC31Long: a LONG table (n concrete dots with irregular coordinates, rising and falling pieces), every x:
+// the same clauses.  (Symbolic coordinates are covered for 2-4 dots; the repository itself uses tables of 17+ dots.)
+func verifC31Long(n int) {
+	sym.IntMode(true)
+	dots := make([]Dot, n)
+	for i := range dots {
+		dots[i] = Dot{X: uint64(i*1000 + i*i*7 + 3), Y: uint64((i*7919+13)%5000*1001 + 17)}
+	}
+	f := NewFunc(dots)
+	x := sym.U64("x")
+	before := sym.Overflows()
+	y := f(x)
+	wrapped := sym.Overflows() != before
+	sym.Observe("y", y)
+	verifC31Clauses(dots, n, x, y)
+	sym.Assert(!wrapped, "no intermediate product or sum overflows 64 bits")
+	sym.Reach("long")
+}
+
+func VerifH_C31_long9()  { verifC31Long(9) }
+func VerifH_C31_long17() { verifC31Long(17) }
